@@ -40,6 +40,11 @@ CONSTANTS Peers,      \* responder nodes, e.g. {2, 3}; the requester is node 1
                       \* (the application or another protocol dialed): BOOLEAN
           Bugs,       \* negative variants for the self-test: "keepctx" = the request context is stored in
                       \* pending_dials before the fallible dial() and stays there when dial() fails
+          Idle,       \* connection-level view of responses: a written response reaches the socket only when the
+                      \* connection task pumps it (Pump) and the responder's connection task may exit because
+                      \* every protocol released the connection (ConnTaskExitOnIdle); the monitor also judges
+                      \* the C04 clause "reported complete => delivered".  FALSE: a written response is on the wire
+          Faults,     \* the link may fail (EClose); FALSE for the C04 clause, which is about links without fault
           Wedge,      \* the manager may leave a dial without any outcome (known C05 defect: negotiated
                       \* connection refused by the outgoing limit, peer stays Dialing, nothing reported)
           KeepHist,   \* record the stimulus history (behaviour generation)
@@ -52,6 +57,8 @@ BothOpts == {"dial", "reject"}
 DialOnly == {"dial"}
 NoBugs == {}
 KeepCtx == {"keepctx"}
+NoDrain == {"nodrain"}        \* the connection task exits on idle without draining what substreams have written
+CloseFirst == {"closefirst"}  \* on_connection_closed fails requests whose response has already arrived
 OnePeer == {p2}
 TwoPeers == {p2, p3}
 
@@ -76,14 +83,16 @@ VARIABLES
   rq,        \* request id -> none | delivered | dropped | answered | rejected | over
   inb,       \* peer -> requests shown to its user and not yet answered / rejected
   tgt,       \* request id -> peer
+  wire,      \* requests whose response has reached the socket (is readable by the requester's future)
+  gone,      \* requests whose connection suffered a link fault (excused from the C04 clause)
   \* bookkeeping
   mon, kf, hist, nrid
 
 pvars == <<inpeers, active, pdial, pout, fut, cancels, evq, cmdq>>
 evars == <<mgr, mdial, wedged, svc, sids, nc>>
-rvars == <<rq, inb, tgt>>
+rvars == <<rq, inb, tgt, wire, gone>>
 vars == <<inpeers, active, pdial, pout, fut, cancels, evq, cmdq, mgr, mdial, wedged, svc, sids, nc,
-          rq, inb, tgt, mon, kf, hist, nrid>>
+          rq, inb, tgt, wire, gone, mon, kf, hist, nrid>>
 
 Q(r) == "q" \o ToString(r)     \* request payload digest
 A(r) == "a" \o ToString(r)     \* digest of the response the responder supplies for request r
@@ -98,7 +107,8 @@ Init ==
   /\ mgr = [p \in Peers |-> "disc"] /\ mdial = [p \in Peers |-> FALSE] /\ wedged = {}
   /\ svc = [p \in Peers |-> "none"] /\ sids = {} /\ nc = 0
   /\ rq = [r \in Rids |-> "none"] /\ inb = [p \in Peers |-> {}] /\ tgt = [r \in Rids |-> 0]
-  /\ mon = MonInit([n \in {R} \cup Peers |-> IF n = R THEN NoLimit ELSE MaxConc])
+  /\ wire = {} /\ gone = {}
+  /\ mon = WithC04(MonInit([n \in {R} \cup Peers |-> IF n = R THEN NoLimit ELSE MaxConc]), Idle)
   /\ kf = {} /\ hist = <<>> /\ nrid = 0
 
 Drop(f, k) == [x \in DOMAIN f \ {k} |-> f[x]]
@@ -117,7 +127,7 @@ UIssue(p, d) ==
      /\ tgt' = [tgt EXCEPT ![r] = p]
      /\ nrid' = nrid + 1
      /\ hist' = H([a |-> "issue", r |-> r, p |-> p, d |-> d])
-  /\ UNCHANGED <<inpeers, active, pdial, pout, fut, cancels, evq, evars, rq, inb, kf>>
+  /\ UNCHANGED <<inpeers, active, pdial, pout, fut, cancels, evq, evars, rq, inb, wire, gone, kf>>
 
 UCancel(r) ==
   /\ r < nrid /\ mon.req[r].st = "open" /\ ~mon.req[r].canc
@@ -215,16 +225,24 @@ OnConnEst(p, alive) ==
             /\ UNCHANGED <<inpeers, active, pout, sids>>
   /\ UNCHANGED <<fut, cancels, mgr, mdial, wedged, nc, kf>>
 
-\* on_connection_closed
+\* on_connection_closed.  Request futures that are already complete are taken first (commit 98aebad): a response
+\* that has arrived (or a cancellation) wins over the close; everything else active for the peer fails.
+Arrived(p) == IF "closefirst" \in Bugs THEN {}
+              ELSE {r \in active[p] \cap DOMAIN fut : rq[r] = "answered" /\ r \in wire}
+CancelledReady(p) == IF "closefirst" \in Bugs THEN {} ELSE {r \in (active[p] \cap DOMAIN fut) \ Arrived(p) : fut[r]}
 OnConnClosed(p) ==
   /\ svc' = [svc EXCEPT ![p] = "none"]
   /\ pout' = pout \ Of(pout, p)
   /\ IF p \in inpeers THEN
+       LET ar == Arrived(p) cr == CancelledReady(p) IN
        /\ inpeers' = inpeers \ {p}
-       /\ mon' = FailEvs(mon, active[p])
+       /\ mon' = FailEvs(FoldSet(LAMBDA r, acc : MonResp(acc, R, r, A(r)), mon, ar), active[p] \ (ar \cup cr))
        /\ active' = [active EXCEPT ![p] = {}]
-     ELSE UNCHANGED <<inpeers, active, mon>>
-  /\ UNCHANGED <<pdial, fut, cancels, mgr, mdial, wedged, sids, nc, kf>>
+       /\ fut' = [r \in DOMAIN fut \ (ar \cup cr) |-> fut[r]]
+       /\ cancels' = cancels \ (ar \cup cr)
+       /\ rq' = [r \in Rids |-> IF r \in ar \cup cr /\ rq[r] # "delivered" THEN "over" ELSE rq[r]]
+     ELSE UNCHANGED <<inpeers, active, mon, fut, cancels, rq>>
+  /\ UNCHANGED <<pdial, mgr, mdial, wedged, sids, nc, kf, inb, tgt, wire, gone>>
 
 \* on_dial_failure
 OnDialFailure(p) ==
@@ -238,7 +256,8 @@ OnDialFailure(p) ==
 \* the responder's on_inbound_substream / on_inbound_request for the request just written
 Deliver(M, r) ==
   LET p == tgt[r] IN
-  IF MaxConc # NoLimit /\ Cardinality(inb[p]) >= MaxConc
+  IF svc[p] # "live" \/ (MaxConc # NoLimit /\ Cardinality(inb[p]) >= MaxConc)
+    \* the connection is gone before the request was written, or the responder's bound refuses it
     THEN [m |-> M, st |-> "dropped", inb |-> inb]
     ELSE [m |-> MonRecv(M, p, R, r, r, Q(r)), st |-> "delivered", inb |-> [inb EXCEPT ![p] = @ \cup {r}]]
 
@@ -254,7 +273,7 @@ OnSubOpened(r) ==
        /\ mon' = d.m
      ELSE /\ mon' = Fail(mon, "panic: pending outbound request does not exist")
           /\ UNCHANGED <<pout, cancels, fut, rq, inb>>
-  /\ UNCHANGED <<inpeers, active, pdial, evars, kf, tgt>>
+  /\ UNCHANGED <<inpeers, active, pdial, evars, kf, tgt, wire, gone>>
 
 \* on_substream_open_failure
 OnSubOpenFail(r) ==
@@ -271,7 +290,7 @@ PEvt ==
   /\ evq' = Tail(evq)
   /\ LET e == Head(evq) IN
        CASE e.k = "est"      -> OnConnEst(e.x, e.i = 1) /\ UNCHANGED rvars
-         [] e.k = "closed"   -> OnConnClosed(e.x) /\ UNCHANGED rvars
+         [] e.k = "closed"   -> OnConnClosed(e.x)
          [] e.k = "dialfail" -> OnDialFailure(e.x) /\ UNCHANGED rvars
          [] e.k = "subopen"  -> OnSubOpened(e.x)
          [] e.k = "subfail"  -> OnSubOpenFail(e.x)
@@ -282,7 +301,10 @@ PEvt ==
 \*        "err" (timeout, substream closed / reset, read error)
 PFut(r, res) ==
   /\ r \in DOMAIN fut
-  /\ res = "resp" => rq[r] = "answered"
+  /\ res = "resp" => rq[r] = "answered" /\ r \in wire
+  \* on a link without fault a timeout does not pre-empt a response whose send was reported complete,
+  \* unless that response can no longer arrive
+  /\ (res = "err" /\ ~Faults /\ rq[r] = "answered") => (mgr[tgt[r]] = "disc" /\ r \notin wire)
   /\ res = "canceled" => fut[r]
   /\ LET p == tgt[r] IN
        IF p \in inpeers /\ r \in active[p] THEN
@@ -297,7 +319,7 @@ PFut(r, res) ==
   \* the requester any more; a request shown to the responder's user keeps its slot
   /\ rq' = [rq EXCEPT ![r] = IF @ = "delivered" THEN @ ELSE "over"]
   /\ hist' = IF res = "err" THEN H([a |-> "timeout", r |-> r]) ELSE hist
-  /\ UNCHANGED <<inpeers, pdial, pout, evq, cmdq, evars, inb, tgt, kf, nrid>>
+  /\ UNCHANGED <<inpeers, pdial, pout, evq, cmdq, evars, inb, tgt, wire, gone, kf, nrid>>
 
 -----------------------------------------------------------------------------
 (* environment: connection manager, connection tasks                        *)
@@ -349,7 +371,34 @@ EInbound(p) ==
 
 \* the connection dies (responder disconnects, link cut, keep-alive): substreams still being
 \* opened are never reported any more, ConnectionClosed is
+CloseConn(p) ==
+  /\ mgr' = [mgr EXCEPT ![p] = "disc"]
+  /\ svc' = [svc EXCEPT ![p] = IF @ = "live" THEN "dead" ELSE @]
+  /\ sids' = sids \ Of(sids, p)
+  /\ evq' = Append([j \in 1..Len(evq) |-> IF evq[j].k = "est" /\ evq[j].x = p THEN [evq[j] EXCEPT !.i = 0] ELSE evq[j]],
+                   [k |-> "closed", x |-> p, i |-> 0])
+
+\* what the substreams of the connection with p have written is handed to the socket
+Drain(p) == wire' = wire \cup {r \in Rids : tgt[r] = p /\ rq[r] = "answered"}
+
+\* The responder's connection task sees that every protocol has released the connection (no request is held by
+\* the responder's user, keep-alive expired) and exits: Drain, then Close (tcp / websocket since 691b9a1).
+\* "nodrain": it returns without polling yamux again.
+ConnTaskExitOnIdle(p) ==
+  /\ Idle /\ mgr[p] = "conn" /\ inb[p] = {}
+  /\ IF "nodrain" \in Bugs THEN wire' = wire ELSE Drain(p)
+  /\ CloseConn(p)
+  /\ hist' = H([a |-> "idleclose", p |-> p])
+  /\ UNCHANGED <<inpeers, active, pdial, pout, fut, cancels, cmdq, mdial, wedged, nc, rq, inb, tgt, gone, mon, kf, nrid>>
+
+\* the connection task polls yamux: a written response reaches the socket
+Pump(r) ==
+  /\ Idle /\ rq[r] = "answered" /\ r \notin wire /\ r \notin gone /\ mgr[tgt[r]] = "conn"
+  /\ wire' = wire \cup {r}
+  /\ UNCHANGED <<pvars, evars, rq, inb, tgt, gone, mon, kf, hist, nrid>>
+
 EClose(p) ==
+  /\ Faults
   /\ mgr[p] = "conn"
   /\ mgr' = [mgr EXCEPT ![p] = "disc"]
   /\ svc' = [svc EXCEPT ![p] = IF @ = "live" THEN "dead" ELSE @]
@@ -357,7 +406,8 @@ EClose(p) ==
   /\ evq' = Append([j \in 1..Len(evq) |-> IF evq[j].k = "est" /\ evq[j].x = p THEN [evq[j] EXCEPT !.i = 0] ELSE evq[j]],
                    [k |-> "closed", x |-> p, i |-> 0])
   /\ hist' = H([a |-> "close", p |-> p])
-  /\ UNCHANGED <<inpeers, active, pdial, pout, fut, cancels, cmdq, mdial, wedged, nc, rvars, mon, kf, nrid>>
+  /\ gone' = IF Idle THEN gone \cup {r \in Rids : tgt[r] = p} ELSE gone
+  /\ UNCHANGED <<inpeers, active, pdial, pout, fut, cancels, cmdq, mdial, wedged, nc, rq, inb, tgt, wire, mon, kf, nrid>>
 
 ESubOpen(r) ==
   /\ r \in sids
@@ -377,11 +427,13 @@ ESubFail(r) ==
 
 RAnswer(r) ==
   /\ rq[r] = "delivered"
-  /\ rq' = [rq EXCEPT ![r] = IF r \in DOMAIN fut THEN "answered" ELSE "over"]
+  \* on a connection that has failed meanwhile the write fails: nothing is reported complete
+  /\ rq' = [rq EXCEPT ![r] = IF r \in DOMAIN fut /\ r \notin gone THEN "answered" ELSE "over"]
   /\ inb' = [inb EXCEPT ![tgt[r]] = @ \ {r}]
-  /\ mon' = MonAnswer(mon, tgt[r], r, A(r))
+  /\ mon' = IF r \in gone THEN MonAnswer(mon, tgt[r], r, A(r)) ELSE MonAnswerFb(mon, tgt[r], r, A(r), FALSE)
+  /\ wire' = IF Idle THEN wire ELSE wire \cup {r}
   /\ hist' = H([a |-> "answer", r |-> r])
-  /\ UNCHANGED <<pvars, evars, tgt, kf, nrid>>
+  /\ UNCHANGED <<pvars, evars, tgt, gone, kf, nrid>>
 
 RReject(r) ==
   /\ rq[r] = "delivered"
@@ -389,7 +441,7 @@ RReject(r) ==
   /\ inb' = [inb EXCEPT ![tgt[r]] = @ \ {r}]
   /\ mon' = MonReject(mon, tgt[r], r)
   /\ hist' = H([a |-> "reject", r |-> r])
-  /\ UNCHANGED <<pvars, evars, tgt, kf, nrid>>
+  /\ UNCHANGED <<pvars, evars, tgt, wire, gone, kf, nrid>>
 
 -----------------------------------------------------------------------------
 User == \/ \E p \in Peers : \E d \in DialOpts : UIssue(p, d)
@@ -398,9 +450,9 @@ Internal ==
   \/ PCmd \/ PEvt
   \/ \E r \in Rids : \E res \in {"resp", "canceled", "err"} : PFut(r, res)
   \/ \E p \in Peers : EDialOk(p) \/ EDialFail(p) \/ EDialWedge(p)
-  \/ \E r \in Rids : ESubOpen(r) \/ ESubFail(r)
+  \/ \E r \in Rids : ESubOpen(r) \/ ESubFail(r) \/ Pump(r)
 Env ==
-  \/ \E p \in Peers : EInbound(p) \/ EClose(p) \/ EForeignDialFail(p)
+  \/ \E p \in Peers : EInbound(p) \/ EClose(p) \/ EForeignDialFail(p) \/ ConnTaskExitOnIdle(p)
   \/ \E r \in Rids : RAnswer(r) \/ RReject(r)
 
 Next == User \/ Internal \/ Env
@@ -431,6 +483,11 @@ BooksOK == Quiescent => /\ pout = {} /\ cancels = {}
 \* the responder-side bound on the model state
 BoundOK == MaxConc # NoLimit => \A p \in Peers : Cardinality(inb[p]) <= MaxConc
 
+\* the last clause of C04 lifted to the connection: a response whose send was reported complete while the requester
+\* is still waiting, on a link without fault, is on the wire or can still get there
+DeliveredOK == \A r \in DOMAIN fut :
+                 (rq[r] = "answered" /\ r \notin gone /\ r \notin wire) => mgr[tgt[r]] = "conn"
+
 \* []( issued /\ ~cancelled => <> terminal ), for the repaired model under FairSpec
 Live == \A r \in Rids :
           (r < nrid /\ mon.req[r].st = "open" /\ ~mon.req[r].canc) ~> (mon.req[r].st \in {"resp", "fail"} \/ mon.req[r].canc \/ r \in kf \/ r \in Stuck)
@@ -440,7 +497,7 @@ ViewMon == [req |-> [k \in DOMAIN mon.req |-> IF mon.req[k].st \in {"resp", "fai
                                                  THEN [st |-> mon.req[k].st, canc |-> mon.req[k].canc] ELSE mon.req[k]],
             inb |-> {k \in DOMAIN mon.inb : mon.inb[k].open}, bad |-> mon.bad]
 View == <<inpeers, active, pdial, pout, fut, cancels, evq, cmdq, mgr, mdial, wedged, svc, sids, nc,
-          rq, inb, tgt, ViewMon, kf, nrid>>
+          rq, inb, tgt, wire, gone, ViewMon, kf, nrid>>
 Sym == Permutations(Peers)
 Emit == PrintT(<<"B", ToJson([h |-> hist'])>>)
 =============================================================================
